@@ -227,8 +227,8 @@ TypeOK == /\ pid \in 1..Len(Progs)
           /\ \A v \in Vars : env[v] \in {"undef", "int", "bool", "unbound", "any"}
 \* break/continue always find their loop inside the current function
 JumpsWellFormed == (AtStmt /\ Cur.k \in {"break", "continue"}) => Innermost("loop") > Innermost("fn")
-\* "unbound" exists only while a nested function body is explored
-UnboundOnlyInFun == (\E v \in Vars : env[v] = "unbound") => Innermost("fn") > 0
+\* "unbound" exists only while a nested function body is explored (or the path has just ended there)
+UnboundOnlyInFun == (stack # <<>> /\ \E v \in Vars : env[v] = "unbound") => Innermost("fn") > 0
 \* a live path is never inside a construct that was entered dead
 LiveInsideLive == ~dead => \A j \in (Innermost("fn") + 1)..Depth : stack[j].t \in {"arm", "body", "loop"} => stack[j].lv
 
